@@ -4,6 +4,8 @@
    Proofs/PqrFormat.v (C08's string model of the writer) and
    Proofs/PqrFormatC09.v (what the print-time options can change in a line). *)
 From Coq Require Import String List Bool Arith ZArith.
+From PV Require Import Model.ForceField Model.States Proofs.States Proofs.NeutralC09.
+From PV Require Generated.States Generated.FF_PARSE Generated.StatesFF_PARSE.
 From PV Require Import Model.Pipeline Proofs.Pipeline Generated.Stages Proofs.StagesC09.
 From PV Require Import Lib.Strings Model.PqrFormat Proofs.PqrFormat Proofs.PqrFormatC09.
 Import ListNotations.
@@ -172,6 +174,67 @@ Example C09_print_nonvacuous :
   /\ String.length (drop 30 (pqr_string false base_atom)) = 39.
 Proof. exact print_options_nonvacuous. Qed.
 
+(* ---- --neutraln / --neutralc (PARSE): over C02's model of set_termini/set_state
+        and the state tables generated from the current dat/ files ---- *)
+
+(* which residues the flags can touch: against the run without the flags, the
+   terminus part of a residue's ffname is unchanged, or an N-flagged non-PRO
+   residue goes N -> NEUTRAL-N under --neutraln, or a C-flagged residue (without
+   the N flag) goes C -> NEUTRAL-C under --neutralc.  ALL options, classes, residue
+   states; a residue without terminus flags is never touched; NPRO stays NPRO *)
+Theorem C09_neutral_only_termini : forall (o : opts) (cls : aclass) (r : rstate),
+  term_prefix o cls r = term_prefix base_opts cls r
+  \/ (rs_n r = true /\ cls <> C_PRO /\ o_neutraln o = true
+      /\ term_prefix base_opts cls r = PN /\ term_prefix o cls r = PNN)
+  \/ (rs_n r = false /\ rs_c r = true /\ o_neutralc o = true
+      /\ term_prefix base_opts cls r = PC /\ term_prefix o cls r = PNC).
+Proof. exact term_prefix_cases. Qed.
+
+Theorem C09_neutral_internal_untouched : forall (o1 o2 : opts) (cls : aclass) (r : rstate),
+  rs_n r = false -> rs_c r = false -> term_prefix o1 cls r = term_prefix o2 cls r.
+Proof. exact term_prefix_internal. Qed.
+
+Theorem C09_neutral_npro_unchanged : forall (o : opts) (r : rstate),
+  rs_n r = true -> term_prefix o C_PRO r = PN.
+Proof. exact term_prefix_pro. Qed.
+
+(* the row kinds of the generated state table carry exactly those name prefixes *)
+Theorem C09_neutral_rows_match_prefix : forall r, In r Generated.States.arows ->
+  fst (ar_name r) = prefix_of_tkind (ar_cls r) (ar_term r).
+Proof. exact (term_prefix_table _ generated_term_prefix). Qed.
+
+(* ALL residue lists (PARSE): if every residue is either in the same state in both
+   runs or a terminus actually neutralised (row N -> NEUTRAL-N or C -> NEUTRAL-C of
+   the same residue type and side-chain state, both fully parameterised, not the
+   known exception NEUTRAL-CPRO), the exact total charge moves by
+   -1 per neutralised N-terminus and +1 per neutralised C-terminus *)
+Theorem C09_neutral_shift : forall l : list rpair,
+  Forall (step_ok StatesFF_PARSE.built StatesFF_PARSE.known_exceptions Generated.States.arows) l ->
+  zsum (map p_q2 l)
+  = (zsum (map p_q1 l) + (Z.of_nat (c_neutralised l) - Z.of_nat (n_neutralised l)) * SCALE)%Z.
+Proof. exact (neutral_shift_total _ _ _ StatesFF_PARSE.neutral_shift). Qed.
+
+(* ... and a residue whose state differs is such a terminus, shifted by exactly
+   one unit; every non-terminal residue (row kind T_I) is unchanged *)
+Theorem C09_neutral_changes_only_termini : forall p : rpair,
+  step_ok StatesFF_PARSE.built StatesFF_PARSE.known_exceptions Generated.States.arows p ->
+  unchanged p
+  \/ (ar_term (p_r1 p) = T_N /\ ar_term (p_r2 p) = T_NN /\ p_q2 p = (p_q1 p - SCALE)%Z)
+  \/ (ar_term (p_r1 p) = T_C /\ ar_term (p_r2 p) = T_NC /\ p_q2 p = (p_q1 p + SCALE)%Z).
+Proof. exact (neutral_changes_only_termini _ _ _ StatesFF_PARSE.neutral_shift). Qed.
+
+Theorem C09_neutral_internal_unchanged : forall p : rpair,
+  step_ok StatesFF_PARSE.built StatesFF_PARSE.known_exceptions Generated.States.arows p ->
+  ar_term (p_r1 p) = T_I -> unchanged p.
+Proof. exact (neutral_internal_unchanged _ _ _ StatesFF_PARSE.neutral_shift). Qed.
+
+Example C09_neutral_nonvacuous :
+  Forall (step_ok StatesFF_PARSE.built StatesFF_PARSE.known_exceptions Generated.States.arows) ex_pairs
+  /\ n_neutralised ex_pairs = 1 /\ c_neutralised ex_pairs = 1
+  /\ map p_q1 ex_pairs = [SCALE; 0; - SCALE]%Z /\ map p_q2 ex_pairs = [0; 0; 0]%Z
+  /\ ar_term (pick 1) = T_N /\ ar_term (pick 3) = T_NN /\ ar_term (pick 0) = T_I.
+Proof. exact neutral_nonvacuous. Qed.
+
 Print Assumptions C09_format_noninterference.
 Print Assumptions C09_generated_obligation.
 Print Assumptions C09_generated_noninterference.
@@ -189,3 +252,11 @@ Print Assumptions C09_serial_is_position.
 Print Assumptions C09_order_preserved.
 Print Assumptions C09_print_options_keep_numbers.
 Print Assumptions C09_print_nonvacuous.
+Print Assumptions C09_neutral_only_termini.
+Print Assumptions C09_neutral_internal_untouched.
+Print Assumptions C09_neutral_npro_unchanged.
+Print Assumptions C09_neutral_rows_match_prefix.
+Print Assumptions C09_neutral_shift.
+Print Assumptions C09_neutral_changes_only_termini.
+Print Assumptions C09_neutral_internal_unchanged.
+Print Assumptions C09_neutral_nonvacuous.
